@@ -128,7 +128,11 @@ class Check:
         if isinstance(claim, S.SB):
             claim = claim.n
         assume = [a.n if isinstance(a, S.SB) else a for a in assume]
+        soft = kind == 'probe_forall'     # a universal obligation whose 'unknown' is tolerated (still a violation when refuted and replayed)
+        if soft:
+            kind = 'forall'
         ob = solve.Obligation(name, assume, claim, kind, meta, key)
+        ob.meta['soft'] = soft
         ob.meta['replay'] = replay
         self.obls.append(ob)
         return ob
@@ -207,7 +211,8 @@ class Check:
         claims = [o for o in obls if o.kind not in ('reach', 'probe')]
         discharged = sum(1 for o in claims if o.holds)
         refuted = [o for o in claims if o.refuted]
-        inconcl = [o for o in claims if not o.holds and not o.refuted]
+        inconcl = [o for o in claims if not o.holds and not o.refuted and not o.meta.get('soft')]
+        soft_unknown = [o for o in claims if not o.holds and not o.refuted and o.meta.get('soft')]
         vacuous = [o for o in reach if o.verdict != 'sat']
         solver_s = sum(o.seconds for o in obls)
         distinct = len({o.name for o in claims if not o.ground})
@@ -264,13 +269,14 @@ class Check:
             % _z3_version())
         cov = {
             'explanation': explanation,
-            'obligations': len(claims),
+            'obligations': len(claims) - len(soft_unknown),
             'discharged': discharged,
             'inconclusive': len(inconcl),
             'refuted': len(refuted),
             'ground_obligations': ground,
             'reachability_twins': len(reach),
             'probe_queries': len(probes),
+            'soft_obligations_unknown': [o.name for o in soft_unknown],
             'evaluations': n + self.feasibility_queries,
             'distinct_nontrivial': distinct,
             'rule': 'one evaluation = one SMT query (obligation, reachability twin or path-feasibility query); an obligation is non-trivial if its formula mentions at least one symbolic variable (ground obligations and twins are not counted); distinct by obligation name (function+configuration+output entry)',
